@@ -129,6 +129,8 @@ def install(reg):
             ("id", "implies(isinstance(ubxClass, bytes), self._ubxID == ubxID)"),
             ("class-from-name", "implies(isinstance(ubxClass, str), self._ubxClass == msgname_spec(ubxClass, ubxID)[0])"),
             ("id-from-name", "implies(isinstance(ubxClass, str), self._ubxID == msgname_spec(ubxClass, ubxID)[1])"),
+            ("class-from-int", "implies(isinstance(ubxClass, int), self._ubxClass == bytes((ubxClass,)))"),
+            ("id-from-int", "implies(isinstance(ubxClass, int), self._ubxID == bytes((ubxID,)))"),
             ("mode", "self._mode == msgmode"),
             ("payload-kept", "implies('payload' in kwargs, self._payload == kwargs['payload'])"),
             ("payload-none", "implies(len(kwargs) == 0, self._payload is None)"),
